@@ -218,6 +218,25 @@ func systematicC11() []*c11Scenario {
 			}
 		}
 	}
+	// a handle that looked an id up BEFORE it existed must see it once another handle has stored it
+	for _, dd := range [][]byte{d, []byte("ab"), {}} {
+		for _, lk := range []string{"getbytes", "getfile", "get"} {
+			for _, lk2 := range []string{"getbytes", "getfile"} {
+				sc := &c11Scenario{Pre: map[string][]byte{},
+					Clients: [][]c11Call{{{Op: lk, ID: 0}, {Op: lk2, ID: 0}, {Op: lk2, ID: 0}}, {{Op: "put", ID: 0, Data: dd}}, {{Op: "put", ID: 0, Data: dd}}}}
+				// the first lookup (a miss: one operation), then both writers to the end, then the same
+				// handle again; the lookups that start after a Put has returned must hit (general oracle)
+				sc.Schedule = append(sc.Schedule, 0)
+				for i := 0; i < 40; i++ {
+					sc.Schedule = append(sc.Schedule, 1, 2)
+				}
+				for i := 0; i < 60; i++ {
+					sc.Schedule = append(sc.Schedule, 0)
+				}
+				out = append(out, sc)
+			}
+		}
+	}
 	// goroutines sharing ONE handle, each looking up its own id (stored before, never rewritten),
 	// one running to completion at every operation boundary of the other
 	for _, pair := range [][2]string{{"getbytes", "getbytes"}, {"getfile", "getbytes"}, {"get", "getfile"}, {"getbytes", "get"}} {
@@ -431,6 +450,39 @@ func (rn *c11Runner) runScenario(sc *c11Scenario) (corr, impl, oname string, tag
 					}
 					if !okBytes {
 						impl, oname = fmt.Sprintf("client %d: GetBytes(id%d) returned %s with OutputID %s, which no Put stored for that id", ci, o.ID, trunc(f[1]), f[2]), "foreign-data"
+					}
+				}
+			}
+		}
+	}
+	// general form: a lookup that starts after a successful Put of that id has returned must hit,
+	// when every Put of that id in the scenario (and the initial store) carries the same content
+	// and its output was not damaged beforehand
+	if len(resp.Spans) == len(sc.Clients) {
+		for ci, c := range sc.Clients {
+			for oi, o := range c {
+				if (o.Op != "getbytes" && o.Op != "getfile" && o.Op != "get") || oi >= len(resp.Spans[ci]) || oi >= len(resp.Results[ci]) {
+					continue
+				}
+				if len(stored[o.ID]) != 1 || strings.HasPrefix(resp.Results[ci][oi], "F") {
+					continue
+				}
+				damagedPre := false
+				for k2, dv := range sc.Pre {
+					if k2[0] == 'd' && outHex(dv) != k2[2:] {
+						damagedPre = true
+					}
+				}
+				if damagedPre {
+					continue
+				}
+				start := resp.Spans[ci][oi][0]
+				for pc, c2 := range sc.Clients {
+					for po, o2 := range c2 {
+						if o2.Op == "put" && o2.ID == o.ID && po < len(resp.Spans[pc]) && po < len(resp.Results[pc]) &&
+							strings.HasPrefix(resp.Results[pc][po], "PUTOK") && resp.Spans[pc][po][1] <= start && impl == "" {
+							impl, oname = fmt.Sprintf("client %d: %s(id%d) missed (%s) although client %d's Put of that id (the only content ever stored for it) had already returned successfully", ci, o.Op, o.ID, resp.Results[ci][oi], pc), "spurious-miss"
+						}
 					}
 				}
 			}
